@@ -203,6 +203,8 @@ def run_case(case):
             raw, typ, path = b"", "blank", None
         enc = rlp_encode(raw)
         node = impl("decode_node", nodes.decode_node, enc if raw != b"" else b"")
+        expect("hexary-node-decodes", isinstance(node, (bytes, list)),
+               lambda: f"decode_node of a {k} node returned {node!r}")
         expect_eq("hexary-node-decodes", rlp_encode(node) if node != b"" else b"\x80", enc, f"decode_node of a {k} node")
         t = impl("get_node_type", nodes.get_node_type, node)
         expect_eq("hexary-node-classifies", t, TYPE_CONST[typ], f"get_node_type of a {k} node")
